@@ -2,11 +2,13 @@
 from __future__ import annotations
 
 from typing import (
-    TYPE_CHECKING, Dict, Iterator, List, Optional, Mapping, Sequence,
+    TYPE_CHECKING, Any, Callable, Dict, Iterator, List, Optional, Mapping, Sequence,
     Type, Union
 )
 import ast
 import abc
+import html
+from inspect import Signature, formatannotation
 
 from twisted.web.iweb import IRenderable, ITemplateLoader, IRequest
 from twisted.web.template import Element, Tag, renderer, tags
@@ -14,7 +16,7 @@ from pydoctor.extensions import zopeinterface
 
 from pydoctor.stanutils import html2stan
 from pydoctor import epydoc2stan, model, linker, __version__
-from pydoctor.astbuilder import node2fullname
+from pydoctor.astbuilder import node2fullname, _ValueFormatter
 from pydoctor.templatewriter import util, TemplateLookup, TemplateElement
 from pydoctor.templatewriter.pages.table import ChildTable
 from pydoctor.templatewriter.pages.sidebar import SideBar
@@ -51,6 +53,31 @@ def format_decorators(obj: Union[model.Function, model.Attribute, model.Function
         epydoc2stan.reportWarnings(documentable_obj, doc.warnings, section='colorize decorator')
         yield '@', stan.children, tags.br()
 
+class _EscapedText:
+    """
+    The text of a value of a signature that is not presented by the AST builder, see L{_escaped_signature}.
+    """
+    def __init__(self, text: str) -> None:
+        self._text = html.escape(text)
+    def __repr__(self) -> str:
+        return self._text
+
+def _escaped_signature(sig: Signature) -> Signature:
+    """
+    The text of a signature is parsed as HTML. The values the AST builder puts in a signature 
+    present themselves as HTML; the ones of an introspected function are the live objects: 
+    their text must be escaped.
+    """
+    def escaped(value: object, fmt: Callable[[Any], str]) -> object:
+        if value is Signature.empty or isinstance(value, _ValueFormatter):
+            return value
+        return _EscapedText(fmt(value))
+    return sig.replace(
+        parameters=[p.replace(default=escaped(p.default, repr), 
+                              annotation=escaped(p.annotation, formatannotation)) 
+                    for p in sig.parameters.values()], 
+        return_annotation=escaped(sig.return_annotation, formatannotation))
+
 def format_signature(func: Union[model.Function, model.FunctionOverload]) -> "Flattenable":
     """
     Return a stan representation of a nicely-formatted source-like function signature for the given L{Function}.
@@ -58,7 +85,7 @@ def format_signature(func: Union[model.Function, model.FunctionOverload]) -> "Fl
     """
     broken = "(...)"
     try:
-        return html2stan(str(func.signature)) if func.signature else broken
+        return html2stan(str(_escaped_signature(func.signature))) if func.signature else broken
     except Exception as e:
         # We can't use safe_to_stan() here because we're using Signature.__str__ to generate the signature HTML.
         epydoc2stan.reportErrors(func.primary if isinstance(func, model.FunctionOverload) else func, 
